@@ -168,39 +168,55 @@ func (c *Conn) Hash() int {
 func (c *Conn) AsyncRead() {
 	g := c.p.g
 
-	// If is EPOLLONESHOT, run the read job directly, because the reading event wouldn't
-	// be re-dispatched before this reading event has been handled and set again.
+	// If is EPOLLONESHOT, the descriptor stays disabled until this read job sets
+	// the event again. A Write that hits EAGAIN meanwhile re-arms it (for reading
+	// and writing), so a reading event can still be dispatched while the job is
+	// running: like below, it is counted and the running job reads once more,
+	// instead of a second job reading next to it.
 	if g.isOneshot {
+		cnt := atomic.AddInt32(&c.readEvents, 1)
+		if cnt > 2 {
+			atomic.AddInt32(&c.readEvents, -1)
+			return
+		}
+		if cnt > 1 {
+			return
+		}
 		g.IOExecute(func(pbuf *[]byte) {
-			// looked at before the reads: what the peer sent before it
-			// hung up is in the socket by then.
-			hungup := atomic.LoadInt32(&c.hungup) != 0
-			for i := 0; i < g.MaxConnReadTimesPerEventLoop || hungup; i++ {
-				// the last round may have left the buffer cut to its count.
-				*pbuf = (*pbuf)[:cap(*pbuf)]
-				rc, n, err := c.ReadAndGetConn(pbuf)
-				if n > 0 {
-					*pbuf = (*pbuf)[:n]
-					g.onDataPtr(rc, pbuf)
+			for {
+				// looked at before the reads: what the peer sent before it
+				// hung up is in the socket by then.
+				hungup := atomic.LoadInt32(&c.hungup) != 0
+				for i := 0; i < g.MaxConnReadTimesPerEventLoop || hungup; i++ {
+					// the last round may have left the buffer cut to its count.
+					*pbuf = (*pbuf)[:cap(*pbuf)]
+					rc, n, err := c.ReadAndGetConn(pbuf)
+					if n > 0 {
+						*pbuf = (*pbuf)[:n]
+						g.onDataPtr(rc, pbuf)
+					}
+					if errors.Is(err, syscall.EINTR) {
+						continue
+					}
+					if errors.Is(err, syscall.EAGAIN) {
+						break
+					}
+					if err != nil {
+						_ = c.closeWithError(err)
+						return
+					}
+					if n < len(*pbuf) && (c.typ == ConnTypeTCP || c.typ == ConnTypeUnix) {
+						break
+					}
 				}
-				if errors.Is(err, syscall.EINTR) {
-					continue
-				}
-				if errors.Is(err, syscall.EAGAIN) {
-					break
-				}
-				if err != nil {
-					_ = c.closeWithError(err)
+				if hungup {
+					// everything the peer sent before it hung up has been delivered.
+					_ = c.closeWithError(io.EOF)
 					return
 				}
-				if n < len(*pbuf) && (c.typ == ConnTypeTCP || c.typ == ConnTypeUnix) {
+				if atomic.AddInt32(&c.readEvents, -1) == 0 {
 					break
 				}
-			}
-			if hungup {
-				// everything the peer sent before it hung up has been delivered.
-				_ = c.closeWithError(io.EOF)
-				return
 			}
 			c.ResetPollerEvent()
 		})
